@@ -1,2 +1,351 @@
-#include <cstdio>
-int main() { return 0; }
+// C07 implementation side (L1 tie + oracle): drives the REAL momo::internal::DataIndexes object - its
+// UniqueHash / MultiHash members and the two-phase AddRaw / RemoveRaw / UpdateRaw protocol - directly, with
+// rows living in one array so that the ORDER OF ROW ADDRESSES (which MultiHash sorts by) is the order of
+// the row ids used by the Coq model (coq/IndexModel.v, coq/MultiHash.v via ocaml/idx_driver.ml).
+// Case line:  X <traits> | op | op | ...     traits 0 = momo::DataTraits, 1 = heavily colliding hash, 2 = constant hash
+//   NU c..      create unique hash index on columns c.. (over the live rows)       -> ok | dup i
+//   NM c..      create multi hash index
+//   W i v0 v1 v2    write the content of the (dead) row i
+//   ADD f i     DataIndexes::AddRaw(row i)        f=1: inject std::bad_alloc at the 1st,2nd,.. allocation until it completes
+//   REM f i     DataIndexes::RemoveRaw(row i)
+//   UPD f i j   DataIndexes::UpdateRaw(old row i, new row j)
+//   UPC f i c v t   DataIndexes::UpdateRaw(row i, offset of column c, item v, assigner); t=1: the assigner throws
+//   FU j v..    FindRaws(unique index j, tuple)   FM j v..  FindRaws(multi index j, tuple)
+//   DUMP        full canonical state
+// After every mutating op the line carries "<result> #<digest of the canonical state>".
+#include "private_access.h"
+#include "momo/DataTable.h"
+
+static long g_countdown = 0, g_live = 0, g_faults = 0;
+class FailMM
+{
+public:
+	explicit FailMM() noexcept {}
+	FailMM(FailMM&&) noexcept {}
+	FailMM(const FailMM&) noexcept {}
+	~FailMM() noexcept {}
+	FailMM& operator=(const FailMM&) = delete;
+	void* Allocate(size_t size)
+	{
+		if (g_countdown > 0 && --g_countdown == 0) throw std::bad_alloc();
+		void* p = std::malloc(size); if (p == nullptr) throw std::bad_alloc();
+		++g_live; return p;
+	}
+	void Deallocate(void* ptr, size_t) noexcept { --g_live; std::free(ptr); }
+	bool IsEqual(const FailMM&) const noexcept { return true; }
+};
+
+struct S { int k[3]; int pad; };
+static const int NRAW = 1024;
+static S g_store[NRAW];
+
+typedef momo::DataColumnListStatic<S, momo::DataColumnInfo<S>, FailMM> CL;
+
+struct Traits1 : public momo::DataTraits
+{
+	template<typename Item> static void AccumulateHashCode(size_t& hashCode, const Item& item, size_t) { hashCode += size_t(item) & 1; }
+};
+struct Traits2 : public momo::DataTraits
+{
+	template<typename Item> static void AccumulateHashCode(size_t& hashCode, const Item&, size_t) { hashCode += 0; }
+};
+
+static unsigned long strDigest(const std::string& s) { unsigned long h = 7; for (unsigned char ch : s) h = (h * 131 + ch) % 1000003UL; return h; }
+
+template<typename Traits>
+struct Bed
+{
+	typedef momo::internal::DataIndexes<CL, Traits> Indexes;
+	typedef typename Indexes::UniqueHashIndex UIdx;
+	typedef typename Indexes::MultiHashIndex MIdx;
+	typedef momo::internal::VersionKeeper<typename CL::Settings> VK;
+	FailMM mm;
+	Indexes idx;
+	std::vector<std::vector<int>> ucols, mcols;   // columns of each index (sorted), creation order
+	std::set<int> live;
+	std::string fail;
+	size_t version = 0;
+
+	Bed() : idx(mm) {}
+	void bad(const std::string& w) { if (fail.empty()) fail = w; }
+	static long idOf(const S* raw) { return long(raw - g_store); }
+	static size_t off(int c) { return offsetof(S, k) + sizeof(int) * size_t(c); }
+	static std::vector<int> keyOf(const std::vector<int>& cols, int i) { std::vector<int> k; for (int c : cols) k.push_back(g_store[i].k[c]); return k; }
+
+	std::vector<S*> liveRaws() { std::vector<S*> v; for (int i : live) v.push_back(&g_store[i]); return v; }
+
+	// canonical state: unique hashes as sorted id lists; multi hashes as groups sorted by key content,
+	// each group "key:values in array order"
+	std::string dump(bool sortValues)
+	{
+		std::ostringstream o;
+		for (size_t j = 0; j < idx.mUniqueHashes.GetCount(); ++j)
+		{
+			std::vector<long> ids;
+			for (S* raw : idx.mUniqueHashes[j].mHashSet) ids.push_back(idOf(raw));
+			std::sort(ids.begin(), ids.end());
+			o << "U" << j << "[";
+			for (size_t q = 0; q < ids.size(); ++q) o << (q ? " " : "") << ids[q];
+			o << "]";
+			if (!!idx.mUniqueHashes[j].mPositionAdd || !!idx.mUniqueHashes[j].mPositionRemove) bad("unique hash keeps a pending position");
+		}
+		for (size_t j = 0; j < idx.mMultiHashes.GetCount(); ++j)
+		{
+			std::vector<std::pair<std::vector<int>, std::string>> groups;
+			auto& mm2 = idx.mMultiHashes[j].mHashMultiMap;
+			for (auto keyIter = mm2.GetKeyBounds().GetBegin(); !!keyIter; ++keyIter)
+			{
+				std::ostringstream g; long key = idOf(keyIter->key); g << key << ":";
+				std::vector<long> vals; for (size_t q = 0; q < keyIter->GetCount(); ++q) vals.push_back(idOf((*keyIter)[q]));
+				if (sortValues) std::sort(vals.begin(), vals.end());
+				for (size_t q = 0; q < vals.size(); ++q) g << (q ? " " : "") << vals[q];
+				groups.push_back({ keyOf(mcols[j], int(key)), g.str() });
+			}
+			std::sort(groups.begin(), groups.end());
+			o << "M" << j << "[";
+			for (size_t q = 0; q < groups.size(); ++q) o << (q ? "|" : "") << groups[q].second;
+			o << "]";
+			if (!!idx.mMultiHashes[j].mKeyIteratorAdd || !!idx.mMultiHashes[j].mKeyIteratorRemove) bad("multi hash keeps a pending key iterator");
+		}
+		return o.str();
+	}
+
+	// ---- the oracle: every index against the set of live rows (brute force)
+	void verify()
+	{
+		for (size_t j = 0; j < ucols.size(); ++j)
+		{
+			std::set<long> ids; size_t n = 0;
+			for (S* raw : idx.mUniqueHashes[j].mHashSet) { ids.insert(idOf(raw)); ++n; }
+			if (n != live.size() || ids.size() != n) { bad("unique hash " + std::to_string(j) + " holds " + std::to_string(n) + " entries for " + std::to_string(live.size()) + " rows"); return; }
+			for (int i : live)
+			{
+				if (!ids.count(i)) { bad("row " + std::to_string(i) + " missing from unique hash " + std::to_string(j)); return; }
+				auto b = idx.FindRaws(UIdx(ptrdiff_t(j)), &g_store[i], VK(&version));
+				if (b.GetCount() != 1 || *b.GetBegin() != &g_store[i]) { bad("row " + std::to_string(i) + " is not reachable under its key in unique hash " + std::to_string(j)); return; }
+				for (int i2 : live) if (i2 < i && keyOf(ucols[j], i) == keyOf(ucols[j], i2)) { bad("unique hash " + std::to_string(j) + " violated by rows " + std::to_string(i2) + "," + std::to_string(i)); return; }
+			}
+		}
+		for (size_t j = 0; j < mcols.size(); ++j)
+		{
+			std::map<std::vector<int>, std::vector<long>> exp;
+			for (int i : live) exp[keyOf(mcols[j], i)].push_back(i);
+			auto& mm2 = idx.mMultiHashes[j].mHashMultiMap;
+			if (mm2.GetKeyCount() != exp.size()) { bad("multi hash " + std::to_string(j) + " has " + std::to_string(mm2.GetKeyCount()) + " keys, brute force " + std::to_string(exp.size())); return; }
+			for (auto keyIter = mm2.GetKeyBounds().GetBegin(); !!keyIter; ++keyIter)
+			{
+				long key = idOf(keyIter->key);
+				if (!live.count(int(key))) { bad("multi hash " + std::to_string(j) + ": key row " + std::to_string(key) + " is not a live row"); return; }
+				std::vector<long> got{ key }; size_t cnt = keyIter->GetCount();
+				for (size_t q = 0; q < cnt; ++q) got.push_back(idOf((*keyIter)[q]));
+				// completed segments must be sorted by address: AcceptRemove binary-searches them
+				size_t i1 = 0, i2 = 64;
+				for (size_t seg = 0; i2 < cnt; ++seg)
+				{
+					for (size_t q = i1 + 1; q < i2; ++q) if (!((*keyIter)[q - 1] < (*keyIter)[q])) { bad("multi hash " + std::to_string(j) + ": completed segment [" + std::to_string(i1) + "," + std::to_string(i2) + ") is not sorted"); return; }
+					i1 = i2; i2 += (seg + 1 < 4) ? 128 : (seg + 1 < 10) ? 256 : 512;
+				}
+				std::sort(got.begin(), got.end());
+				auto it = exp.find(keyOf(mcols[j], int(key)));
+				if (it == exp.end() || it->second != got) { bad("multi hash " + std::to_string(j) + ": group of key row " + std::to_string(key) + " has " + std::to_string(got.size()) + " rows, brute force " + std::to_string(it == exp.end() ? 0 : it->second.size())); return; }
+			}
+		}
+	}
+
+	template<typename F> void faulty(bool inject, const F& f)
+	{
+		if (!inject) { f(); return; }
+		std::string before = dump(true);
+		for (long k = 1; k < 100000; ++k)
+		{
+			g_countdown = k;
+			try { f(); g_countdown = 0; return; }
+			catch (const std::bad_alloc&)
+			{
+				g_countdown = 0; ++g_faults;
+				if (dump(true) != before) bad("indexes changed by an operation that failed at allocation #" + std::to_string(k));
+				verify();
+			}
+		}
+	}
+
+	template<typename... Items, size_t n = sizeof...(Items)>
+	std::string addUnique(const std::vector<int>& cols)
+	{
+		std::array<size_t, n> offs; for (size_t q = 0; q < n; ++q) offs[q] = off(cols[q]);
+		std::vector<S*> raws = liveRaws();
+		auto res = idx.template AddUniqueHashIndex<Items...>(raws, offs);
+		if (res.raw != nullptr) return "dup " + std::to_string(idOf(res.raw));
+		std::vector<int> sc = cols; std::sort(sc.begin(), sc.end());
+		if (std::find(ucols.begin(), ucols.end(), sc) == ucols.end()) ucols.push_back(sc);
+		return "ok";
+	}
+	template<typename... Items, size_t n = sizeof...(Items)>
+	std::string addMulti(const std::vector<int>& cols)
+	{
+		std::array<size_t, n> offs; for (size_t q = 0; q < n; ++q) offs[q] = off(cols[q]);
+		std::vector<S*> raws = liveRaws();
+		idx.template AddMultiHashIndex<Items...>(raws, offs);
+		std::vector<int> sc = cols; std::sort(sc.begin(), sc.end());
+		if (std::find(mcols.begin(), mcols.end(), sc) == mcols.end()) mcols.push_back(sc);
+		return "ok";
+	}
+
+	bool expConflict(const int* content, int skip, long& r, long& j)
+	{
+		for (size_t u = 0; u < ucols.size(); ++u)
+			for (int i : live)
+			{
+				if (i == skip) continue;
+				bool eq = true; for (int c : ucols[u]) if (g_store[i].k[c] != content[c]) eq = false;
+				if (eq) { r = i; j = long(u); return true; }
+			}
+		return false;
+	}
+
+	std::string resultOf(const typename Indexes::Result& res, bool conf, long er, long ej)
+	{
+		if (res.raw == nullptr) { if (conf) bad("accepted although row " + std::to_string(er) + " collides on unique hash " + std::to_string(ej)); return "ok"; }
+		long r = idOf(res.raw), j = long(static_cast<ptrdiff_t>(res.uniqueHashIndex));
+		if (!conf) bad("refused although no row collides"); else if (r != er || j != ej) bad("refusal names row " + std::to_string(r) + " index " + std::to_string(j) + ", brute force " + std::to_string(er) + " " + std::to_string(ej));
+		return "conflict " + std::to_string(r) + " " + std::to_string(j);
+	}
+
+	std::string runOp(const std::string& text)
+	{
+		std::istringstream is(text); std::string cmd; is >> cmd; std::ostringstream out; bool mutating = true;
+		if (cmd == "NU" || cmd == "NM")
+		{
+			std::vector<int> cols; int c; while (is >> c) cols.push_back(c);
+			if (cmd == "NU") out << (cols.size() == 1 ? addUnique<int>(cols) : cols.size() == 2 ? addUnique<int, int>(cols) : addUnique<int, int, int>(cols));
+			else out << (cols.size() == 1 ? addMulti<int>(cols) : cols.size() == 2 ? addMulti<int, int>(cols) : addMulti<int, int, int>(cols));
+		}
+		else if (cmd == "W") { int i; is >> i; is >> g_store[i].k[0] >> g_store[i].k[1] >> g_store[i].k[2]; if (live.count(i)) bad("script writes a live row"); out << "ok"; mutating = false; }
+		else if (cmd == "ADD")
+		{
+			int f, i; is >> f >> i;
+			if (live.count(i)) { out << "invalid"; }
+			else {
+				long er = 0, ej = 0; bool conf = expConflict(g_store[i].k, -1, er, ej);
+				typename Indexes::Result res{ nullptr, UIdx::empty };
+				faulty(f != 0, [&] { res = idx.AddRaw(&g_store[i]); });
+				out << resultOf(res, conf, er, ej);
+				if (res.raw == nullptr) live.insert(i);
+			}
+		}
+		else if (cmd == "REM")
+		{
+			int f, i; is >> f >> i;
+			if (!live.count(i)) out << "invalid";
+			else { faulty(f != 0, [&] { idx.RemoveRaw(&g_store[i]); }); live.erase(i); out << "ok"; }
+		}
+		else if (cmd == "UPD")
+		{
+			int f, i, j; is >> f >> i >> j;
+			if (!live.count(i) || live.count(j) || i == j) out << "invalid";
+			else {
+				long er = 0, ej = 0; bool conf = expConflict(g_store[j].k, i, er, ej);
+				typename Indexes::Result res{ nullptr, UIdx::empty };
+				faulty(f != 0, [&] { res = idx.UpdateRaw(&g_store[i], &g_store[j]); });
+				out << resultOf(res, conf, er, ej);
+				if (res.raw == nullptr) { live.erase(i); live.insert(j); }
+			}
+		}
+		else if (cmd == "UPC")
+		{
+			int f, i, c, v, t; is >> f >> i >> c >> v >> t;
+			if (!live.count(i)) out << "invalid";
+			else {
+				int content[3] = { g_store[i].k[0], g_store[i].k[1], g_store[i].k[2] }; content[c] = v;
+				long er = 0, ej = 0; bool conf = (v != g_store[i].k[c]) && expConflict(content, i, er, ej);
+				typename Indexes::Result res{ nullptr, UIdx::empty };
+				bool threw = false;
+				auto assigner = [&] (S* raw, size_t offset) {
+					if (t != 0) throw std::bad_alloc();
+					*reinterpret_cast<int*>(reinterpret_cast<char*>(raw) + offset) = v; };
+				std::string before = dump(true);
+				try { faulty(f != 0 && t == 0, [&] { res = idx.UpdateRaw(&g_store[i], off(c), v, assigner); }); }
+				catch (const std::bad_alloc&) { threw = true; }
+				if (threw)
+				{
+					out << "exn";
+					if (conf) bad("conflicting single-column update reached the assigner");
+					if (dump(true) != before) bad("indexes changed by a single-column update whose assignment threw");
+					if (g_store[i].k[c] != content[c] && false) {}
+				}
+				else out << resultOf(res, conf, er, ej);
+				if (!threw && res.raw == nullptr && g_store[i].k[c] != v) bad("assigner was not applied");
+			}
+		}
+		else if (cmd == "FU" || cmd == "FM")
+		{
+			mutating = false; size_t j; is >> j; std::vector<int> v; int x; while (is >> x) v.push_back(x);
+			std::vector<long> got; bool ok = true;
+			if (cmd == "FU")
+			{
+				if (j >= ucols.size() || v.size() != ucols[j].size()) ok = false;
+				else if (v.size() == 1) { typename Indexes::template OffsetItemTuple<int> tup{ std::pair<size_t, const int&>(off(ucols[j][0]), v[0]) };
+					for (S* raw : idx.FindRaws(UIdx(ptrdiff_t(j)), tup, VK(&version))) got.push_back(idOf(raw)); }
+				else { typename Indexes::template OffsetItemTuple<int, int> tup{ std::pair<size_t, const int&>(off(ucols[j][0]), v[0]), std::pair<size_t, const int&>(off(ucols[j][1]), v[1]) };
+					for (S* raw : idx.FindRaws(UIdx(ptrdiff_t(j)), tup, VK(&version))) got.push_back(idOf(raw)); }
+			}
+			else
+			{
+				if (j >= mcols.size() || v.size() != mcols[j].size()) ok = false;
+				else if (v.size() == 1) { typename Indexes::template OffsetItemTuple<int> tup{ std::pair<size_t, const int&>(off(mcols[j][0]), v[0]) };
+					for (S* raw : idx.FindRaws(MIdx(ptrdiff_t(j)), tup, VK(&version))) got.push_back(idOf(raw)); }
+				else { typename Indexes::template OffsetItemTuple<int, int> tup{ std::pair<size_t, const int&>(off(mcols[j][0]), v[0]), std::pair<size_t, const int&>(off(mcols[j][1]), v[1]) };
+					for (S* raw : idx.FindRaws(MIdx(ptrdiff_t(j)), tup, VK(&version))) got.push_back(idOf(raw)); }
+			}
+			if (!ok) out << "noindex";
+			else {
+				const std::vector<int>& cols = (cmd == "FU") ? ucols[j] : mcols[j];
+				std::vector<long> exp; for (int i : live) if (keyOf(cols, i) == v) exp.push_back(i);
+				std::vector<long> sorted = got; std::sort(sorted.begin(), sorted.end());
+				if (sorted != exp) bad(cmd + " returns " + std::to_string(got.size()) + " rows, brute force " + std::to_string(exp.size()));
+				out << "f";
+				for (long g : got) out << " " << g;     // array order: key row first, then the values
+			}
+		}
+		else if (cmd == "DUMP") { mutating = false; out << dump(false); }
+		else { mutating = false; out << "?"; }
+		if (mutating) { ++version; verify(); out << " #" << strDigest(dump(false)); }
+		return out.str();
+	}
+};
+
+template<typename Traits> static std::string runCase(const std::vector<std::string>& ops)
+{
+	std::string outLine;
+	{
+		Bed<Traits> bed;
+		for (const std::string& text : ops)
+		{
+			std::string o;
+			try { o = bed.runOp(text); }
+			catch (const std::exception& e) { o = std::string("!ORACLE-FAIL:unexpected exception ") + e.what(); g_countdown = 0; }
+			if (!outLine.empty()) outLine += "|";
+			outLine += o;
+		}
+		outLine += "|" + bed.dump(false);
+		if (!bed.fail.empty()) outLine += " !ORACLE-FAIL:" + bed.fail;
+	}
+	if (g_live != 0) { outLine += " !ORACLE-FAIL:memory leak (" + std::to_string(g_live) + " live blocks)"; g_live = 0; }
+	return outLine;
+}
+
+int main()
+{
+	std::string line; long cases = 0;
+	while (std::getline(std::cin, line))
+	{
+		std::vector<std::string> parts; size_t pos = 0;
+		while (pos <= line.size()) { size_t bar = line.find('|', pos); if (bar == std::string::npos) bar = line.size(); parts.push_back(line.substr(pos, bar - pos)); pos = bar + 1; }
+		int traits = 0; { std::istringstream is(parts[0]); std::string x; is >> x >> traits; }
+		std::vector<std::string> ops(parts.begin() + 1, parts.end());
+		std::string out = traits == 0 ? runCase<momo::DataTraits>(ops) : traits == 1 ? runCase<Traits1>(ops) : runCase<Traits2>(ops);
+		std::puts(out.c_str()); ++cases;
+	}
+	std::fprintf(stderr, "idx cases=%ld injected_faults=%ld\n", cases, g_faults);
+	return 0;
+}
